@@ -10,6 +10,17 @@ pub fn verif_root() -> PathBuf {
     PathBuf::from(std::env::var("VERIF_ROOT").unwrap_or_else(|_| "/verif".into()))
 }
 
+/// Where evidence and replay files go: the verification root, unless a run against an alternative
+/// copy of the repository (tooling for seeded changes, see `vcheck`) redirects them.
+pub fn out_root() -> PathBuf {
+    std::env::var("VERIF_OUT").map(PathBuf::from).unwrap_or_else(|_| verif_root())
+}
+
+/// Directory of the build flavor `flavor` ("main" / "smallbuf") of the current run.
+pub fn build_dir(flavor: &str) -> PathBuf {
+    verif_root().join(".build").join(format!("{}{flavor}", std::env::var("VERIF_BUILD_PREFIX").unwrap_or_default()))
+}
+
 #[derive(Clone, Debug)]
 pub struct Known {
     pub property: String,
@@ -96,7 +107,7 @@ impl Report {
 
     /// Write evidence + replays, print protocol lines, return the process exit code.
     pub fn finish(self) -> i32 {
-        let root = verif_root();
+        let root = out_root();
         let _ = std::fs::create_dir_all(root.join("evidence"));
         let _ = std::fs::create_dir_all(root.join("replays"));
         let known = load_known();
